@@ -41,13 +41,16 @@ static unsigned rd_below(rd_t * r, unsigned n) { return n <= 1 ? 0 : rd_u8(r) % 
 static int rd_range(rd_t * r, int lo, int hi) { return lo + (int)rd_below(r, (unsigned)(hi - lo + 1)); }
 
 enum { P_COUNTER, P_TRYCOUNTER, P_BARRIER, P_TURNSTILE, P_SPIN, P_ONCE, P_KEYSET, P_KEYGET, P_CHILD, P_YIELD, P_SLEEP, P_SELF, P_GATE, P_N };
-typedef struct { int kind, a, b; } ph_t;
+typedef struct { int kind, a, b, v; } ph_t;   /* v: variant nibble (which of the equivalent API spellings the phase uses) */
 #define MAXPH 20
 static int T, nph; static ph_t ph[MAXPH];
 static int thr_attr[8], thr_exit[8];
 
 static pthread_mutex_t gm[3] = { PTHREAD_MUTEX_INITIALIZER, PTHREAD_MUTEX_INITIALIZER, PTHREAD_MUTEX_INITIALIZER };
-static long counter[3];
+static pthread_mutex_t dynm[3];   /* initialised with pthread_mutex_init and a default attribute object; protect the same counters in other phases never concurrently: see P_COUNTER */
+static pthread_cond_t gate_cv[MAXPH], tcv[8]; static long rc_flags;
+static long counter[3]; static int dyn_for[3], ts_signal;
+#define CM(a) (dyn_for[a] ? &dynm[a] : &gm[a])
 static pthread_mutex_t cm; static pthread_cond_t cv; static int turn; static int gate_open[MAXPH]; static int gate_arrived[MAXPH];
 static pthread_barrier_t bar; static long serial_total;
 static pthread_spinlock_t sp; static long spin_counter;
@@ -58,6 +61,7 @@ static long thread_result[8], child_sum[8], self_ok[8], key_ok[8], bad_flags;
 static pthread_t tids[8], selfs[8];   /* tids: written by the creator; selfs: written by the thread itself */
 static pthread_mutex_t dm = PTHREAD_MUTEX_INITIALIZER; static pthread_cond_t dcv = PTHREAD_COND_INITIALIZER; static int detached_pending;
 
+#define RC(call) do { if ((call) != 0) rc_flags |= 256; } while (0)
 static void once0(void) { once_cnt[0]++; } static void once1(void) { sched_yield(); once_cnt[1]++; } static void once2(void) { once_cnt[2]++; }
 static void (* const once_fn[3])(void) = { once0, once1, once2 };
 static void dtor(void * v) { if (!v) return; pthread_mutex_lock(&logm); if (ndlog < 256) dlog[ndlog++] = (long)(intptr_t)v; pthread_mutex_unlock(&logm); }
@@ -71,7 +75,7 @@ static void * child(void * a) {
 static void * dchild(void * a) {
   long v = (long)(intptr_t)a;
   for (int i = 0; i < (int)(v & 3); i++) sched_yield();
-  pthread_mutex_lock(&dm); child_sum[(v >> 8) & 7] += v * 5; detached_pending--; pthread_cond_broadcast(&dcv); pthread_mutex_unlock(&dm);
+  pthread_mutex_lock(&dm); child_sum[(v >> 8) & 7] += v * 5; detached_pending--; RC(pthread_cond_broadcast(&dcv)); pthread_mutex_unlock(&dm);
   return 0;
 }
 
@@ -81,29 +85,47 @@ static void * worker(void * arg) {
   for (int i = 0; i < nph; i++) {
     ph_t * p = &ph[i];
     switch (p->kind) {
-    case P_COUNTER: for (int k = 0; k < p->b; k++) { pthread_mutex_lock(&gm[p->a]); long t = counter[p->a]; if (k & 1) sched_yield(); counter[p->a] = t + 1; pthread_mutex_unlock(&gm[p->a]); } break;
-    case P_TRYCOUNTER: for (int k = 0; k < p->b; k++) { while (pthread_mutex_trylock(&gm[p->a]) != 0) sched_yield(); counter[p->a]++; pthread_mutex_unlock(&gm[p->a]); } break;
+    case P_COUNTER: for (int k = 0; k < p->b; k++) { if (pthread_mutex_lock(CM(p->a))) rc_flags |= 128; long t = counter[p->a]; if (k & 1) sched_yield(); counter[p->a] = t + 1; if (pthread_mutex_unlock(CM(p->a))) rc_flags |= 128; } break;
+    case P_TRYCOUNTER: for (int k = 0; k < p->b; k++) { while (pthread_mutex_trylock(CM(p->a)) != 0) sched_yield(); counter[p->a]++; pthread_mutex_unlock(CM(p->a)); } break;
     case P_BARRIER: { int r = pthread_barrier_wait(&bar); if (r == PTHREAD_BARRIER_SERIAL_THREAD) { pthread_mutex_lock(&cm); serial_total++; pthread_mutex_unlock(&cm); } else if (r != 0) bad_flags |= 1; break; }
     case P_TURNSTILE:
       pthread_mutex_lock(&cm);
-      while (turn != me) pthread_cond_wait(&cv, &cm);
-      turn = (me + 1) % T; pthread_cond_broadcast(&cv);
+      if (ts_signal) {   /* one condition variable per thread, the next in line is signalled (the same spelling in every turnstile phase of a program: the turn variable is shared by all of them) */
+        while (turn != me) RC(pthread_cond_wait(&tcv[me], &cm));
+        turn = (me + 1) % T; RC(pthread_cond_signal(&tcv[turn]));
+      } else {
+        while (turn != me) RC(pthread_cond_wait(&cv, &cm));
+        turn = (me + 1) % T; RC(pthread_cond_broadcast(&cv));
+      }
       pthread_mutex_unlock(&cm);
       break;
-    case P_GATE:       /* last arriver opens with a broadcast, the others wait */
+    case P_GATE:       /* last arriver opens: one broadcast on the shared condition variable, or T-1 signals on the gate's own */
       pthread_mutex_lock(&cm);
-      if (++gate_arrived[i] == T) { gate_open[i] = 1; pthread_cond_broadcast(&cv); }
-      else while (!gate_open[i]) pthread_cond_wait(&cv, &cm);
+      if (p->v & 1) {
+        if (++gate_arrived[i] == T) { gate_open[i] = 1; for (int k = 0; k < T - 1; k++) RC(pthread_cond_signal(&gate_cv[i])); }
+        else while (!gate_open[i]) RC(pthread_cond_wait(&gate_cv[i], &cm));
+      } else {
+        if (++gate_arrived[i] == T) { gate_open[i] = 1; RC(pthread_cond_broadcast(&cv)); }
+        else while (!gate_open[i]) RC(pthread_cond_wait(&cv, &cm));
+      }
       pthread_mutex_unlock(&cm);
       break;
-    case P_SPIN: for (int k = 0; k < p->b; k++) { pthread_spin_lock(&sp); spin_counter++; pthread_spin_unlock(&sp); } break;
-    case P_ONCE: pthread_once(&once_ctl[p->a], once_fn[p->a]); if (once_cnt[p->a] != 1) bad_flags |= 2; break;
-    case P_KEYSET: pthread_setspecific(keys[p->a], (void *)(intptr_t)(1000 + me * 16 + p->a)); break;
+    case P_SPIN: for (int k = 0; k < p->b; k++) { if (p->v & 1) { while (pthread_spin_trylock(&sp) != 0) sched_yield(); } else if (pthread_spin_lock(&sp)) rc_flags |= 64; spin_counter++; if (pthread_spin_unlock(&sp)) rc_flags |= 64; } break;
+    case P_ONCE: RC(pthread_once(&once_ctl[p->a], once_fn[p->a])); if (once_cnt[p->a] != 1) bad_flags |= 2; break;
+    case P_KEYSET: RC(pthread_setspecific(keys[p->a], (void *)(intptr_t)(1000 + me * 16 + p->a))); break;
     case P_KEYGET: { void * v = pthread_getspecific(keys[p->a]); if (v && v != (void *)(intptr_t)(1000 + me * 16 + p->a)) key_ok[me]++; break; }
     case P_CHILD: {
       pthread_t t; pthread_attr_t at; pthread_attr_t * ap = 0; long v = (long)(p->b & 7) | ((long)me << 8);
       int mode = p->a;     /* 0 no attr, 1 attr default, 2 attr + stack size, 3 attr detached */
-      if (mode) { pthread_attr_init(&at); ap = &at; if (mode == 2) pthread_attr_setstacksize(&at, 65536 * (size_t)(1 + (p->b & 3))); if (mode == 3) pthread_attr_setdetachstate(&at, PTHREAD_CREATE_DETACHED); }
+      if (mode) { RC(pthread_attr_init(&at)); ap = &at; if (mode == 2) pthread_attr_setstacksize(&at, 65536 * (size_t)(1 + (p->b & 3))); if (mode == 3) RC(pthread_attr_setdetachstate(&at, PTHREAD_CREATE_DETACHED)); }
+      if (mode == 2) { size_t got = 0; if (pthread_attr_getstacksize(&at, &got) || got != 65536 * (size_t)(1 + (p->b & 3))) rc_flags |= 1; }
+      if (mode) { int ds = -1; if (pthread_attr_getdetachstate(&at, &ds) || ds != (mode == 3 ? PTHREAD_CREATE_DETACHED : PTHREAD_CREATE_JOINABLE)) rc_flags |= 2; }
+      if (mode != 3 && (p->v & 3) == 3) {   /* created joinable, detached afterwards by its creator (before, while or after it runs) */
+        pthread_mutex_lock(&dm); detached_pending++; pthread_mutex_unlock(&dm);
+        if (pthread_create(&t, ap, dchild, (void *)(intptr_t)v)) bad_flags |= 4;
+        if (p->b & 8) sched_yield();
+        if (pthread_detach(t)) rc_flags |= 4;
+      } else
       if (mode == 3) {
         pthread_mutex_lock(&dm); detached_pending++; pthread_mutex_unlock(&dm);
         if (pthread_create(&t, ap, dchild, (void *)(intptr_t)v)) bad_flags |= 4;
@@ -114,10 +136,15 @@ static void * worker(void * arg) {
         if (pthread_join(t, &rv)) bad_flags |= 8;
         child_sum[me] += (long)(intptr_t)rv;
       }
-      if (ap) pthread_attr_destroy(ap);
+      if (ap) RC(pthread_attr_destroy(ap));
       break; }
     case P_YIELD: sched_yield(); break;
-    case P_SLEEP: usleep((useconds_t)(50 * (1 + p->b))); break;
+    case P_SLEEP:
+      if ((p->v & 3) == 1) { struct timespec ts = { 0, 50000L * (1 + p->b) }; if (nanosleep(&ts, 0)) rc_flags |= 8; }
+      else if ((p->v & 3) == 2) { struct timespec ts = { 0, 50000L * (1 + p->b) }; if (nanosleep(&ts, &ts)) rc_flags |= 8; }
+      else if ((p->v & 3) == 3) { if (sleep(0)) rc_flags |= 8; }
+      else if (usleep((useconds_t)(50 * (1 + p->b)))) rc_flags |= 8;
+      break;
     case P_SELF:   /* reading tids[me] here would race with the creator's store (POSIX does not order them); the creator's copy is compared after the join */
       if (pthread_equal(pthread_self(), selfs[me])) self_ok[me]++; else self_ok[me] -= 100; break;
     }
@@ -142,16 +169,18 @@ int main(int argc, char ** argv) {
   /* decode */
   T = rd_range(&r, 1, 6); nph = rd_range(&r, 1, MAXPH);
   for (int t = 0; t < T; t++) { thr_attr[t] = (int)rd_below(&r, 3); thr_exit[t] = (int)rd_below(&r, 2); }
+  { unsigned d = (unsigned)(T * 5 + nph * 3 + thr_attr[0] * 7 + thr_exit[0]); for (int k = 0; k < 3; k++) dyn_for[k] = (int)((d >> k) & 1); ts_signal = (int)((d >> 3) & 1); }
   for (int i = 0; i < nph; i++) {
     unsigned k = rd_below(&r, P_N), a = rd_u8(&r), b = rd_u8(&r);
-    ph[i].kind = (int)k; ph[i].a = (int)(a % 3); ph[i].b = (int)(b % 12);
+    ph[i].kind = (int)k; ph[i].a = (int)(a % 3); ph[i].b = (int)(b % 12); ph[i].v = (int)((a >> 4) ^ (b >> 5)) & 15;
     if (k == P_KEYSET || k == P_KEYGET) ph[i].a = (int)(a % 4);
     if (k == P_CHILD) { ph[i].a = (int)(a % 4); ph[i].b = (int)(b & 15); }
   }
   if (getenv("PTH_DESCRIBE")) {
     printf("C16 pthread program: T=%d W=%d phases:", T, W);
     static const char * nm[] = { "counter", "trycounter", "barrier", "turnstile", "spin", "once", "keyset", "keyget", "child", "yield", "sleep", "self", "gate" };
-    for (int i = 0; i < nph; i++) printf(" %s(%d,%d)", nm[ph[i].kind], ph[i].a, ph[i].b);
+    for (int i = 0; i < nph; i++) printf(" %s(%d,%d;v%d)", nm[ph[i].kind], ph[i].a, ph[i].b, ph[i].v);
+    printf("\n turnstile spelling: %s; counters protected by:", ts_signal ? "per-thread condvars + signal" : "one condvar + broadcast"); for (int k = 0; k < 3; k++) printf(" %s", dyn_for[k] ? "mutex_init(attr)" : "static initialiser");
     printf("\n attrs:"); for (int t = 0; t < T; t++) printf(" %d/%s", thr_attr[t], thr_exit[t] ? "exit" : "ret"); printf("\n");
     return 0;
   }
@@ -169,19 +198,33 @@ int main(int argc, char ** argv) {
     mc.mode = MV_CONTROLLED; mc.nparts = W; mc.sched = sched; mc.sched_len = l3; mc.seed = seed; mc.tail_preempt = tail; mc.step_budget = 20000000;
     mv_enable(&mc);
   }
-  pthread_mutex_init(&cm, 0); pthread_cond_init(&cv, 0); pthread_barrier_init(&bar, 0, (unsigned)T); pthread_spin_init(&sp, 0);
-  for (int k = 0; k < 4; k++) { key_has_dtor[k] = (k != 3); pthread_key_create(&keys[k], key_has_dtor[k] ? dtor : 0); }
+  RC(pthread_mutex_init(&cm, 0)); RC(pthread_cond_init(&cv, 0)); RC(pthread_barrier_init(&bar, 0, (unsigned)T)); RC(pthread_spin_init(&sp, 0));
+  { pthread_mutexattr_t ma; pthread_condattr_t ca;
+    if (pthread_mutexattr_init(&ma)) rc_flags |= 16; if (pthread_condattr_init(&ca)) rc_flags |= 16;
+    for (int k = 0; k < 3; k++) { if (pthread_mutex_init(&dynm[k], &ma)) rc_flags |= 16; }
+    for (int k = 0; k < MAXPH; k++) if (pthread_cond_init(&gate_cv[k], k & 1 ? &ca : 0)) rc_flags |= 16;
+    for (int k = 0; k < 8; k++) if (pthread_cond_init(&tcv[k], 0)) rc_flags |= 16;
+    pthread_mutexattr_destroy(&ma); pthread_condattr_destroy(&ca); }
+  for (int k = 0; k < 4; k++) { key_has_dtor[k] = (k != 3); RC(pthread_key_create(&keys[k], key_has_dtor[k] ? dtor : 0)); }
   for (int t = 0; t < T; t++) {
     pthread_attr_t at; pthread_attr_t * ap = 0;
-    if (thr_attr[t]) { pthread_attr_init(&at); ap = &at; if (thr_attr[t] == 2) pthread_attr_setstacksize(&at, 262144); }
+    if (thr_attr[t]) { RC(pthread_attr_init(&at)); ap = &at; if (thr_attr[t] == 2) RC(pthread_attr_setstacksize(&at, 262144)); }
     if (pthread_create(&tids[t], ap, worker, (void *)(intptr_t)t)) { printf("create failed\n"); return 3; }
-    if (ap) pthread_attr_destroy(ap);
+    if (ap) RC(pthread_attr_destroy(ap));
   }
   for (int t = 0; t < T; t++) { void * rv = 0; if (pthread_join(tids[t], &rv)) bad_flags |= 16; thread_result[t] = (long)(intptr_t)rv; if (!pthread_equal(tids[t], selfs[t])) bad_flags |= 32; for (int u = 0; u < t; u++) if (pthread_equal(tids[t], tids[u]) && 0) bad_flags |= 64; mv_progress(); }
-  pthread_mutex_lock(&dm); while (detached_pending > 0) pthread_cond_wait(&dcv, &dm); pthread_mutex_unlock(&dm);
+  pthread_mutex_lock(&dm); while (detached_pending > 0) RC(pthread_cond_wait(&dcv, &dm)); pthread_mutex_unlock(&dm);
+  /* everything is quiescent: the objects can be destroyed (each call must succeed) */
+  { int e = 0;
+    e |= pthread_mutex_destroy(&cm); e |= pthread_cond_destroy(&cv); e |= pthread_barrier_destroy(&bar); e |= pthread_spin_destroy(&sp);
+    for (int k = 0; k < 3; k++) e |= pthread_mutex_destroy(&dynm[k]);
+    for (int k = 0; k < MAXPH; k++) e |= pthread_cond_destroy(&gate_cv[k]);
+    for (int k = 0; k < 8; k++) e |= pthread_cond_destroy(&tcv[k]);
+    for (int k = 0; k < 4; k++) e |= pthread_key_delete(keys[k]);
+    if (e) rc_flags |= 32; }
   if (controlled) { mv_finished(); mv_disable(); }
   /* canonical result */
-  printf("counters %ld %ld %ld spin %ld serial %ld once %ld %ld %ld flags %ld\n", counter[0], counter[1], counter[2], spin_counter, serial_total, once_cnt[0], once_cnt[1], once_cnt[2], bad_flags);
+  printf("counters %ld %ld %ld spin %ld serial %ld once %ld %ld %ld flags %ld\n", counter[0], counter[1], counter[2], spin_counter, serial_total, once_cnt[0], once_cnt[1], once_cnt[2], bad_flags); printf("api return codes / attribute getters: flags %ld\n", rc_flags);
   for (int t = 0; t < T; t++) printf("thread %d result %ld children %ld self %ld key_mismatch %ld\n", t, thread_result[t], child_sum[t], self_ok[t], key_ok[t]);
   qsort(dlog, (size_t)ndlog, sizeof(long), cmp_long);
   printf("destructors %d:", ndlog); for (int i = 0; i < ndlog; i++) printf(" %ld", dlog[i]); printf("\n");
